@@ -35,6 +35,10 @@ func registry() map[string]PropSpec {
 				What: "nil receivers and the zero-value map"},
 			{Pkg: "ordered", Name: "c05_marshal", Quick: map[string]int{"slots": 3}, Thorough: map[string]int{"slots": 4}, Unwind: [2]int{16, 24},
 				What: "MarshalJSON member order, MarshalYAML Content order and ToMapRecursive list exactly the live entries in order (Map[string,string] with 0/1-byte keys)"},
+			{Pkg: "ordered", Name: "c05_step_str", Quick: map[string]int{"slots": 3}, Thorough: map[string]int{"slots": 4}, Unwind: [2]int{16, 24},
+				What: "the string-keyed any-valued instantiation (Map[string,any]): one mutator from an arbitrary RI state with 0/1-byte keys incl. the empty key; Len/Range/Get and the index agree with the model"},
+			{Pkg: "ordered", Name: "c05_equal_nested", Quick: map[string]int{}, Unwind: [2]int{24, 24},
+				What: "Equal[string,any] on maps holding nested ordered maps (go-cmp with the registered comparers): deep equality of keys, values, order; symmetric"},
 		},
 		Outside: []string{
 			"maps with more slots than the bound (the inductive step covers histories of any length, but only states with at most `slots` slots)",
@@ -185,6 +189,8 @@ func registry() map[string]PropSpec {
 				What: "merged keys stand where the merge key stood (shared with C07: order is part of the reference comparison)"},
 			{Pkg: ".", Name: "c08_plugins_order", Quick: map[string]int{"entries": 3}, Thorough: map[string]int{"entries": 4}, Unwind: [2]int{48, 64},
 				What: "Plugins.UnmarshalOrdered on the one-mapping form appends in mapping order; the pipeline env block decodes and marshals (JSON data model) in document order"},
+			{Pkg: ".", Name: "c08_nested_unknown", Quick: map[string]int{}, Unwind: [2]int{64, 64},
+				What: "mappings nested inside unknown steps and unknown fields keep document order through parse and JSON marshalling, at every depth (typed-field configs such as agents are emitted by encoding/json in sorted order and are not order-significant)"},
 		},
 		Outside: []string{
 			"token order in the bytes produced by encoding/json and yaml.v3 (library emitters); keys that need quoting (the libraries' quoting)",
@@ -226,6 +232,9 @@ func registry() map[string]PropSpec {
 			{Pkg: ".", Name: "c19_obs_step", Quick: map[string]int{}, Unwind: [2]int{64, 64},
 				Models: []string{"net/url.Parse=vpModelURLParse", "path.Join=vpModelPathJoin"},
 				What:   "CommandStep.MarshalJSON does not modify the step nor materialise absent fields"},
+			{Pkg: "signature", Name: "c06_signsteps", Quick: map[string]int{"depth": 0, "width": 2, "lite": 0}, Unwind: [2]int{64, 64}, FixedMapOrder: true,
+				Models: []string{"net/url.Parse=vpModelURLParse", "path.Join=vpModelPathJoin"},
+				What:   "SignSteps/Sign/Verify write nothing but the Signature field: step scalars, step env, plugins and the caller's env map are unchanged (frame assertions of the C06 harness)"},
 		},
 		Extra: extraC19,
 		Outside: []string{
